@@ -7,6 +7,8 @@ width that provably holds the result interval, so no wrap-around can occur: the 
 """
 from __future__ import annotations
 
+import operator
+
 import z3
 
 from . import core
@@ -33,7 +35,23 @@ def _ext(t, w: int):
     return z3.SignExt(w - s, t)
 
 
-def _mk(t, lo: int, hi: int):
+def _im(v):
+    """Integer-sort mirror of an operand (see core.Ctx.lia): SymInt -> its mirror or None."""
+    return v.i if isinstance(v, SymInt) else v
+
+
+def _i2(f, a, b):
+    x, y = _im(a), _im(b)
+    if x is None or y is None:
+        return None
+    return f(x, y)
+
+
+def _inot(i):
+    return None if i is None else z3.Not(i)
+
+
+def _mk(t, lo: int, hi: int, i=None):
     """Normalise a term known to lie in [lo,hi] (fits in its own width)."""
     if lo > hi:
         # statically empty interval: the path is infeasible, any value will do
@@ -51,29 +69,36 @@ def _mk(t, lo: int, hi: int):
     t = z3.simplify(t)
     if z3.is_bv_value(t):
         return t.as_signed_long()
-    return SymInt(t, lo, hi)
+    return SymInt(t, lo, hi, i)
 
 
 class SymBool:
-    __slots__ = ("t",)
+    __slots__ = ("t", "i")
 
-    def __init__(self, t):
+    def __init__(self, t, i=None):
         self.t = t
+        self.i = i  # the same condition over integer-sort mirrors, or None
 
     @staticmethod
-    def of(t):
+    def of(t, i=None):
         t = z3.simplify(t)
         if z3.is_true(t):
             return True
         if z3.is_false(t):
             return False
-        return SymBool(t)
+        return SymBool(t, i)
 
     def __bool__(self):
-        return core.cur().branch(self.t)
+        return core.cur().branch(self.t, self.i)
 
     def as_int(self):
-        return SymInt(z3.If(self.t, z3.BitVecVal(1, 2), z3.BitVecVal(0, 2)), 0, 1)
+        i = None if self.i is None else z3.If(self.i, z3.IntVal(1), z3.IntVal(0))
+        return SymInt(z3.If(self.t, z3.BitVecVal(1, 2), z3.BitVecVal(0, 2)), 0, 1, i)
+
+    def _i2(self, f, o):
+        if self.i is None or o.i is None:
+            return None
+        return f(self.i, o.i)
 
     def __hash__(self):
         raise Unsupported("hash of symbolic bool")
@@ -94,7 +119,7 @@ class SymBool:
     # logical (bitwise on bools)
     def __and__(self, o):
         if isinstance(o, SymBool):
-            return SymBool.of(z3.And(self.t, o.t))
+            return SymBool.of(z3.And(self.t, o.t), self._i2(z3.And, o))
         if isinstance(o, bool):
             return self if o else False
         return self.as_int() & o
@@ -103,7 +128,7 @@ class SymBool:
 
     def __or__(self, o):
         if isinstance(o, SymBool):
-            return SymBool.of(z3.Or(self.t, o.t))
+            return SymBool.of(z3.Or(self.t, o.t), self._i2(z3.Or, o))
         if isinstance(o, bool):
             return True if o else self
         return self.as_int() | o
@@ -112,9 +137,9 @@ class SymBool:
 
     def __xor__(self, o):
         if isinstance(o, SymBool):
-            return SymBool.of(z3.Xor(self.t, o.t))
+            return SymBool.of(z3.Xor(self.t, o.t), self._i2(z3.Xor, o))
         if isinstance(o, bool):
-            return SymBool.of(z3.Not(self.t)) if o else self
+            return SymBool.of(z3.Not(self.t), _inot(self.i)) if o else self
         return self.as_int() ^ o
 
     __rxor__ = __xor__
@@ -124,9 +149,9 @@ class SymBool:
 
     def __eq__(self, o):
         if isinstance(o, SymBool):
-            return SymBool.of(self.t == o.t)
+            return SymBool.of(self.t == o.t, self._i2(operator.eq, o))
         if isinstance(o, bool):
-            return self if o else SymBool.of(z3.Not(self.t))
+            return self if o else SymBool.of(z3.Not(self.t), _inot(self.i))
         if isinstance(o, (int, SymInt)):
             return self.as_int() == o
         return False
@@ -134,7 +159,7 @@ class SymBool:
     def __ne__(self, o):
         r = self.__eq__(o)
         if isinstance(r, SymBool):
-            return SymBool.of(z3.Not(r.t))
+            return SymBool.of(z3.Not(r.t), _inot(r.i))
         return not r
 
     # arithmetic: behave as int
@@ -180,7 +205,7 @@ class SymBool:
 
 def bnot(b):
     if isinstance(b, SymBool):
-        return SymBool.of(z3.Not(b.t))
+        return SymBool.of(z3.Not(b.t), _inot(b.i))
     return not b
 
 
@@ -216,12 +241,13 @@ def _width(v):
 
 
 class SymInt:
-    __slots__ = ("t", "lo", "hi")
+    __slots__ = ("t", "lo", "hi", "i")
 
-    def __init__(self, t, lo, hi):
+    def __init__(self, t, lo, hi, i=None):
         self.t = t
         self.lo = lo
         self.hi = hi
+        self.i = i  # integer-sort (LIA) mirror of the same mathematical value, or None
 
     @staticmethod
     def var(name, lo, hi, ctx=None):
@@ -239,8 +265,8 @@ class SymInt:
             v = z3.BitVec(name, w)
             t = v
             full_hi = (1 << (w - 1)) - 1
-        x = SymInt(t, lo, hi)
         ctx = ctx or core.cur()
+        x = SymInt(t, lo, hi, ctx.lia_var(name, v, lo, hi))
         if lo >= 0:
             if hi != full_hi:
                 ctx.assume(z3.ULE(v, z3.BitVecVal(hi, w)))
@@ -257,7 +283,7 @@ class SymInt:
     def __bool__(self):
         if self.lo > 0 or self.hi < 0:
             return True
-        return core.cur().branch(self.t != 0)
+        return core.cur().branch(self.t != 0, None if self.i is None else self.i != 0)
 
     def __index__(self):
         return concretize_int(self)
@@ -311,14 +337,14 @@ class SymInt:
         olo, ohi = _iv(o)
         lo, hi = self.lo + olo, self.hi + ohi
         w = max(bits_for(lo, hi), self.t.size(), _width(o))
-        return _mk(_ext(self.t, w) + _term(o, w), lo, hi)
+        return _mk(_ext(self.t, w) + _term(o, w), lo, hi, _i2(operator.add, self, o))
 
     __radd__ = __add__
 
     def __neg__(self):
         lo, hi = -self.hi, -self.lo
         w = bits_for(min(lo, self.lo), max(hi, self.hi))
-        return _mk(-_ext(self.t, w), lo, hi)
+        return _mk(-_ext(self.t, w), lo, hi, None if self.i is None else -self.i)
 
     def __sub__(self, o):
         o = _coerce(o)
@@ -327,7 +353,7 @@ class SymInt:
         olo, ohi = _iv(o)
         lo, hi = self.lo - ohi, self.hi - olo
         w = max(bits_for(lo, hi), self.t.size(), _width(o))
-        return _mk(_ext(self.t, w) - _term(o, w), lo, hi)
+        return _mk(_ext(self.t, w) - _term(o, w), lo, hi, _i2(operator.sub, self, o))
 
     def __rsub__(self, o):
         o = _coerce(o)
@@ -336,7 +362,7 @@ class SymInt:
         olo, ohi = _iv(o)
         lo, hi = olo - self.hi, ohi - self.lo
         w = max(bits_for(lo, hi), self.t.size(), _width(o))
-        return _mk(_term(o, w) - _ext(self.t, w), lo, hi)
+        return _mk(_term(o, w) - _ext(self.t, w), lo, hi, _i2(operator.sub, o, self))
 
     def __mul__(self, o):
         if isinstance(o, float):
@@ -359,7 +385,7 @@ class SymInt:
         c = [self.lo * olo, self.lo * ohi, self.hi * olo, self.hi * ohi]
         lo, hi = min(c), max(c)
         w = max(bits_for(lo, hi), self.t.size(), _width(o))
-        return _mk(_ext(self.t, w) * _term(o, w), lo, hi)
+        return _mk(_ext(self.t, w) * _term(o, w), lo, hi, _i2(operator.mul, self, o))
 
     __rmul__ = __mul__
 
@@ -371,7 +397,7 @@ class SymInt:
         hi = max(-self.lo, self.hi)
         w = bits_for(-hi, hi)
         t = _ext(self.t, w)
-        return _mk(z3.If(t < 0, -t, t), 0, hi)
+        return _mk(z3.If(t < 0, -t, t), 0, hi, None if self.i is None else z3.If(self.i < 0, -self.i, self.i))
 
     def __pow__(self, e, mod=None):
         if mod is not None or not isinstance(e, int) or e < 0 or e > 8:
@@ -396,7 +422,7 @@ class SymInt:
                 raise ZeroDivisionError("integer division or modulo by zero")
         else:
             if b.lo <= 0 <= b.hi:
-                if core.cur().branch(b.t == 0):
+                if core.cur().branch(b.t == 0, None if b.i is None else b.i == 0):
                     raise ZeroDivisionError("integer division or modulo by zero")
         alo, ahi = _iv(a)
         blo, bhi = _iv(b)
@@ -429,7 +455,14 @@ class SymInt:
             q0 = ta / tb  # bvsdiv
             r0 = z3.SRem(ta, tb)
             q = z3.If(z3.And(r0 != 0, (r0 < 0) != (tb < 0)), q0 - 1, q0)
-        return _mk(q, qlo, qhi), _mk(r, rlo, rhi)
+        qi = ri = None
+        ai, bi = _im(a), _im(b)
+        if ai is not None and bi is not None and blo > 0:
+            # z3 integer div/mod with a positive divisor are floor division / non-negative remainder
+            if isinstance(ai, int):
+                ai = z3.IntVal(ai)
+            qi, ri = ai / bi, ai % bi
+        return _mk(q, qlo, qhi, qi), _mk(r, rlo, rhi, ri)
 
     def __floordiv__(self, o):
         o = _coerce(o)
@@ -492,7 +525,10 @@ class SymInt:
             lo, hi = 0, ohi
         else:
             lo, hi = -(1 << (w - 1)), (1 << (w - 1)) - 1
-        return _mk(_ext(self.t, w) & _term(o, w), lo, hi)
+        i = None
+        if self.i is not None and isinstance(o, int) and o > 0 and (o & (o + 1)) == 0:
+            i = self.i % (o + 1)  # x & (2^k - 1) == x mod 2^k for every integer x
+        return _mk(_ext(self.t, w) & _term(o, w), lo, hi, i)
 
     __rand__ = __and__
 
@@ -525,7 +561,7 @@ class SymInt:
     __rxor__ = __xor__
 
     def __invert__(self):
-        return _mk(~self.t, -self.hi - 1, -self.lo - 1)
+        return _mk(~self.t, -self.hi - 1, -self.lo - 1, None if self.i is None else -self.i - 1)
 
     @staticmethod
     def _shift_amount(s):
@@ -535,7 +571,7 @@ class SymInt:
                 raise ValueError("negative shift count")
             return s, s, s
         if s.lo < 0:
-            if core.cur().branch(s.t < 0):
+            if core.cur().branch(s.t < 0, None if s.i is None else s.i < 0):
                 raise ValueError("negative shift count")
         return s, max(0, s.lo), s.hi
 
@@ -563,7 +599,10 @@ class SymInt:
         lo = alo << (shi if alo < 0 else slo)
         hi = ahi << (shi if ahi > 0 else slo)
         w = max(bits_for(lo, hi), _width(a), _width(s), _bl(shi) + 2)
-        return _mk(_term(a, w) << _term(s, w), lo, hi)
+        i = None
+        if isinstance(s, int) and _im(a) is not None:
+            i = _im(a) * (1 << s)
+        return _mk(_term(a, w) << _term(s, w), lo, hi, i)
 
     def __rshift__(self, o):
         o = _coerce(o)
@@ -584,7 +623,10 @@ class SymInt:
         lo = alo >> (slo if alo < 0 else shi)
         hi = ahi >> (shi if ahi < 0 else slo)
         w = max(_width(a), _width(s))
-        return _mk(_term(a, w) >> _term(s, w), lo, hi)
+        i = None
+        if isinstance(s, int) and isinstance(a, SymInt) and a.i is not None:
+            i = a.i / (1 << s)  # floor, as Python's >>
+        return _mk(_term(a, w) >> _term(s, w), lo, hi, i)
 
     # ------------------------------------------------------------- comparisons
     def _cmp(self, o, op):
@@ -615,12 +657,12 @@ class SymInt:
         w = max(self.t.size(), _width(o))
         a, b = _ext(self.t, w), _term(o, w)
         if op == "lt":
-            return SymBool.of(a < b)
+            return SymBool.of(a < b, _i2(operator.lt, self, o))
         if op == "le":
-            return SymBool.of(a <= b)
+            return SymBool.of(a <= b, _i2(operator.le, self, o))
         if op == "gt":
-            return SymBool.of(a > b)
-        return SymBool.of(a >= b)
+            return SymBool.of(a > b, _i2(operator.gt, self, o))
+        return SymBool.of(a >= b, _i2(operator.ge, self, o))
 
     def __lt__(self, o):
         return self._cmp(o, "lt")
@@ -649,12 +691,12 @@ class SymInt:
         if self.hi < olo or self.lo > ohi:
             return False
         w = max(self.t.size(), _width(c))
-        return SymBool.of(_ext(self.t, w) == _term(c, w))
+        return SymBool.of(_ext(self.t, w) == _term(c, w), _i2(operator.eq, self, c))
 
     def __ne__(self, o):
         r = self.__eq__(o)
         if isinstance(r, SymBool):
-            return SymBool.of(z3.Not(r.t))
+            return SymBool.of(z3.Not(r.t), _inot(r.i))
         return not r
 
 
@@ -673,7 +715,7 @@ def concretize_int(x) -> int:
     n = 0
     while True:
         v = ctx.pick_value(x.t)
-        if ctx.branch(x.t == z3.BitVecVal(v, x.t.size())):
+        if ctx.branch(x.t == z3.BitVecVal(v, x.t.size()), None if x.i is None else x.i == v):
             return v
         n += 1
         if n > ctx.opts.get("max_concretize", MAX_CONCRETIZE):
@@ -693,4 +735,8 @@ def ite(c, a, b):
     blo, bhi = _iv(b2)
     lo, hi = min(alo, blo), max(ahi, bhi)
     w = max(bits_for(lo, hi), _width(a2), _width(b2))
-    return _mk(z3.If(c.t, _term(a2, w), _term(b2, w)), lo, hi)
+    i = None
+    ai, bi = _im(a2), _im(b2)
+    if c.i is not None and ai is not None and bi is not None:
+        i = z3.If(c.i, ai if not isinstance(ai, int) else z3.IntVal(ai), bi if not isinstance(bi, int) else z3.IntVal(bi))
+    return _mk(z3.If(c.t, _term(a2, w), _term(b2, w)), lo, hi, i)
